@@ -690,7 +690,61 @@ fn parse_canon(out: &str) -> Result<(Tab, Vec<usize>, usize), String> {
 pub const ORBIT_LIMIT_NPN: usize = 6;
 pub const ORBIT_LIMIT_P: usize = 8;
 
+/// `npnorbit`: images of one function under the group get one representative, which is no larger
+/// than any member of the orbit that the oracle samples, and the certificate replays
+fn npnorbit(t: &[&str], out: &str) -> R {
+    let f = parse_tab(t[2]).ok_or("bad table")?;
+    let n = f.n;
+    let o: Vec<&str> = out.split_whitespace().collect();
+    if o.len() != 10 || o[0] != "ok" {
+        return Err(format!("npn canonization did not return normally: `{}`", out));
+    }
+    let c = parse_tab(o[1]).ok_or("bad table")?;
+    let perm = parse_nats(o[2]).ok_or("bad perm")?;
+    let mask: usize = o[3].parse().map_err(|_| "bad mask")?;
+    let mut sorted = perm.clone();
+    sorted.sort();
+    if sorted != (0..n).collect::<Vec<_>>() || mask >> (n + 1) != 0 {
+        return Err(format!("npn_canonization of {}: malformed certificate {:?} {:#x}", f.show(), perm, mask));
+    }
+    if apply_cert(&f, &perm, mask) != c {
+        return Err(format!("npn_canonization of {}: the certificate (perm {:?}, mask {:#x}) does not map the input to the result {}", f.show(), perm, mask, c.show()));
+    }
+    for k in 0..3 {
+        let g = parse_tab(o[4 + 2 * k]).ok_or("bad table")?;
+        let cg = parse_tab(o[5 + 2 * k]).ok_or("bad table")?;
+        if cg != c {
+            return Err(format!("npn_canonization gives {} for {} and {} for {}, which is an image of it under a permutation and complementations: one orbit, two representatives", c.show(), f.show(), cg.show(), g.show()));
+        }
+        if big_cmp(&g, &c) == std::cmp::Ordering::Less {
+            return Err(format!("npn_canonization of {}: the orbit member {} is smaller than the result {}", f.show(), g.show(), c.show()));
+        }
+    }
+    // members of the orbit sampled by the oracle itself
+    let mut st = u64::from_str_radix(t[3], 16).map_err(|_| "bad seed")? ^ 0x9e3779b97f4a7c15;
+    let mut next = || {
+        st = st.wrapping_mul(6364136223846793005).wrapping_add(1442695040888963407);
+        (st >> 33) as usize
+    };
+    for _ in 0..3000 {
+        let mut p: Vec<usize> = (0..n).collect();
+        for i in (1..n).rev() {
+            let j = next() % (i + 1);
+            p.swap(i, j);
+        }
+        let m = next() % (1usize << (n + 1));
+        let g = apply_cert(&f, &p, m);
+        if big_cmp(&g, &c) == std::cmp::Ordering::Less {
+            return Err(format!("npn_canonization of {}: the orbit member {} (perm {:?}, mask {:#x}) is smaller than the result {}", f.show(), g.show(), p, m, c.show()));
+        }
+    }
+    Ok(true)
+}
+
 fn c04(t: &[&str], out: &str) -> R {
+    if t[0] == "npnorbit" {
+        return npnorbit(t, out);
+    }
     if t[0] == "canonused" {
         // what an entry point walks must be the closed sequences for its size
         let n = us(t[2]);
@@ -809,6 +863,9 @@ fn c04(t: &[&str], out: &str) -> R {
 }
 
 fn c05(t: &[&str], out: &str) -> R {
+    if t[0] == "npnorbit" {
+        return npnorbit(t, out);
+    }
     let (perms, flips) = match t[0] {
         "pcanon" => (true, false),
         "ncanon" => (false, true),
@@ -2132,6 +2189,9 @@ fn check_out(prop: &str, line: &str, out: &str) -> R {
     }
     if out == "ok wrong-num-vars" {
         return Err("the result of an operator on two-level forms has another number of variables than its operands".to_string());
+    }
+    if out == "ok eq-unstable" {
+        return Err("`==` between two tables changes its answer (or disagrees with `cmp` / `hash`) after one operand was hashed, printed, cloned or compared - all of them `&self` operations".to_string());
     }
     if out == "ok views-disagree" {
         return Err("the views of one two-level form (its cubes, value() on every assignment, its conversion to a Lut by reference and by value) do not describe the same function".to_string());
